@@ -69,7 +69,9 @@ def check_srb(cdm, A, n, b, epochs_c, steps_c, drop, skip, tape):
     tail = stream[(len(stream) // n) * n:]
     if len(set(tail)) != len(tail) or any(not 0 <= v < n for v in tail):
       return False
-  # fixed seed: a second pass, and two interleaved iterators, give identical batches
+  # fixed seed: a second pass (after an iterator that was abandoned half-way), and two interleaved iterators, give identical batches
+  if cut:
+    next(iter(view))                                        # an abandoned iterator must leave nothing behind
   if model:
     np_lite.Tape.log = []
   p2 = one_pass(iter(view))
@@ -81,6 +83,29 @@ def check_srb(cdm, A, n, b, epochs_c, steps_c, drop, skip, tape):
     a.append(A.rows(next(it1)['x']))
     c.append(A.rows(next(it2)['x']))
   return a == p1 and c == p1
+
+
+def reshuffle_probe_real(cdm, A, n, b, epochs_c, steps_c, drop, scale=4):
+  """Real numpy only ("successive windows are re-shuffled"): the same configuration scaled by `scale` (N, batch_size, num_steps keep
+  their alignment relations); over 3 seeds, some pair of successive complete windows must differ.  Returns None or a message."""
+  epochs = None if epochs_c == 0 else epochs_c
+  steps = None if steps_c < 0 else steps_c
+  N, B = n * scale, b * scale
+  k = expected_steps(N, B, epochs, steps, drop)
+  cut = MAX_INF if k is None else k
+  same_everywhere, pairs = True, 0
+  for seed in (1, 2, 3):
+    ds = cdm.ClientDataset({'x': A.arr(list(range(N)), 'int32')})
+    view = ds.shuffle_repeat_batch(batch_size=B, num_epochs=epochs, num_steps=steps, drop_remainder=drop, seed=seed)
+    stream = [v for bt in itertools.islice(iter(view), cut) for v in A.rows(bt['x'])]
+    wins = [stream[w:w + N] for w in range(0, len(stream) - N + 1, N)]
+    for w1, w2 in zip(wins, wins[1:]):
+      pairs += 1
+      if w1 != w2:
+        same_everywhere = False
+  if pairs and same_everywhere:
+    return 'N=%d batch_size=%d: all %d pairs of successive windows are identical over 3 seeds (windows are not re-shuffled)' % (N, B, pairs)
+  return None
 
 
 def srb(n: int, batch_size: int, epochs_c: int, steps_c: int, drop: bool, skip: bool, tape: List[int]) -> bool:
